@@ -49,7 +49,7 @@ COMPONENTS = {"real": ["DenseAdditiveLinearGenomicModel.usl/lsl/gebv", "DensePha
               "stub": ["generator subclass (sim.rngseam)"]}
 ASSUMPTIONS = ["gebv() includes the intercept: unscale=True limits are compared with gebv(pop).unscale(), unscale=False limits with the same values minus the intercept",
                "bracketing tolerance 4*eps*ploidy*sum|u|; monotonicity slack 2 ulp of that magnitude; fixation equality 4 ulp",
-               "biallelic 0/1 calls, diploid"]
+               "biallelic 0/1 calls; the simulated programme is diploid, a pooled tetraploid unphased view is checked at every generation"]
 
 PROT = {"self": (SelfCross, 1), "2w": (TwoWayCross, 2), "2wdh": (TwoWayDHCross, 2), "3w": (ThreeWayCross, 3),
         "3wdh": (ThreeWayDHCross, 3), "4w": (FourWayCross, 4), "4wdh": (FourWayDHCross, 4)}
@@ -68,7 +68,7 @@ def generate(R, tier):
                      "policy": R.choice(["replace", "replace", "merge", "subsample"]), "s": R.randrange(1 << 30)})
     mode = R.choice(["pass", "pass", "pass", "low", "high"])
     return {"world": {"seed": R.randrange(1 << 30), "ntaxa": R.choice(SIZES) if R.random() < 0.5 else R.randint(1, 10), "nvrnt": nv, "nchr": nchr,
-                      "ntrait": R.randint(1, 3), "freq": R.choice([0.5, 0.5, 0.2, 0.9])},
+                      "ntrait": R.randint(1, 3), "freq": R.choice([0.5, 0.5, 0.2, 0.9]), "nfixed": R.choice([1, 1, 2, 4])},
             "rng": {"kind": R.choice(["Generator", "RandomState"]), "seed": R.randrange(1 << 30), "umode": mode,
                     "script": [] if mode == "pass" else [{"method": "uniform", "mode": mode}]},
             "steps": gens}
@@ -124,7 +124,7 @@ def _founders(w):
                                    vrnt_chrgrp=chrgrp, vrnt_phypos=numpy.arange(nv) + 1, vrnt_name=obj(["m%d" % i for i in range(nv)]),
                                    vrnt_genpos=numpy.arange(nv) * 0.1, vrnt_xoprob=xo)
     pg.group_vrnt()
-    gm = world.algmod(R, nv, w["ntrait"])
+    gm = world.algmod(R, nv, w["ntrait"], nfixed=w.get("nfixed", 1))
     return pg, gm
 
 
@@ -193,8 +193,8 @@ def execute(sc):
         if numpy.any(numpy.abs(d1 - d2) > 8 * EPS * (numpy.abs(usl_t) + numpy.abs(lsl_t) + mag)):
             V.append(viol("intercept-shifts-both-limits", C + ".usl/lsl", "unscale", "generation %d: unscale=True moves usl by %s and lsl by %s" % (ix, d1.tolist(), d2.tolist()), step=ix))
             return None
-        if gm.beta.shape[0] == 1 and numpy.any(numpy.abs(d1 - gm.beta[0]) > 8 * EPS * (numpy.abs(usl_t) + numpy.abs(gm.beta[0]) + mag)):
-            V.append(viol("intercept-shifts-both-limits", C + ".usl/lsl", "unscale-not-intercept", "generation %d: unscale=True moves the limits by %s, intercept is %s" % (ix, d1.tolist(), gm.beta[0].tolist()), step=ix))
+        if numpy.any(numpy.abs(d1 - loc) > 8 * EPS * (numpy.abs(usl_t) + numpy.abs(gm.beta).sum(0) + mag)):
+            V.append(viol("intercept-shifts-both-limits", C + ".usl/lsl", "unscale-not-intercept", "generation %d: unscale=True moves the limits by %s, the mean of the %d fixed effects is %s" % (ix, d1.tolist(), gm.beta.shape[0], loc.tolist()), step=ix))
             return None
         # unphased view gives the same limits
         try:
@@ -207,6 +207,27 @@ def execute(sc):
                 return None
         except Exception:
             pass
+        # a tetraploid unphased view (pairs of individuals pooled: calls 0..4, ploidy 4) and the same population after
+        # select_taxa of all its members: limits bracket its values and do not depend on how the population object was made
+        if n >= 2:
+            try:
+                half = n // 2
+                d4 = (mat[:, :half, :].astype(int).sum(0) + mat[:, half:2 * half, :].astype(int).sum(0)).astype("int8")
+                t4 = DenseGenotypeMatrix(d4, taxa=obj(["q%d" % i for i in range(half)]), taxa_grp=numpy.zeros(half, dtype=int), vrnt_chrgrp=pop.vrnt_chrgrp, vrnt_phypos=pop.vrnt_phypos, ploidy=4)
+                perm = list(range(half))[::-1]
+                s4 = t4.select_taxa(perm)
+                u4, l4 = numpy.array(gm.usl(t4), dtype=float), numpy.array(gm.lsl(t4), dtype=float)
+                us, ls = numpy.array(gm.usl(s4), dtype=float), numpy.array(gm.lsl(s4), dtype=float)
+                g4 = d4.astype(float) @ u
+                tol4 = 2 * tolb
+                if numpy.any(g4.max(0) > u4 + tol4) or numpy.any(g4.min(0) < l4 - tol4) or numpy.any(numpy.abs(us - u4) > tol4) or numpy.any(numpy.abs(ls - l4) > tol4):
+                    V.append(viol("limits-bracket-population", C + ".usl/lsl", "tetraploid-unphased", "generation %d: tetraploid view of %d taxa: values [%s, %s], limits [%s, %s], after select_taxa [%s, %s]" %
+                                  (ix, half, g4.min(0).tolist(), g4.max(0).tolist(), l4.tolist(), u4.tolist(), ls.tolist(), us.tolist()), step=ix))
+                    return None
+                probes["tetraploid_view_checked"] = probes.get("tetraploid_view_checked", 0) + 1
+            except Exception as e:
+                V.append(viol("limits-computable", C + ".usl/lsl", "tetraploid-unphased|raises:%s" % type(e).__name__, "generation %d: %s: %s" % (ix, type(e).__name__, e), step=ix))
+                return None
         rec = {"usl": usl, "lsl": lsl, "has0": has0, "has1": has1, "n": n, "gmax": gmax, "gmin": gmin}
         fixed = not numpy.any(has0 & has1)
         if fixed:
